@@ -631,6 +631,19 @@ def scenarios():
                                 ss=_st((3, 1), (3, 3)))
     S['scsv-fallback12'] = dict(kind='cert', cred='rsa', cs=_st((3, 1), (3, 3), sendFallbackSCSV=True),
                                 ss=_st((3, 1), (3, 4)))
+    # fallback RETRY of a TLS-1.3-capable client that holds a cached TLS 1.2 session (the TLS 1.3 attempt was killed
+    # by the attacker): maxVersion lowered, sendFallbackSCSV=True, the cached session offered.  cs0 = the settings of
+    # the earlier honest handshake that produced the session; true_cmax = what the client really supports.
+    S['scsv-fallback12-resume-id'] = dict(kind='cert', cred='rsa', cs0=_st((3, 1), (3, 3)),
+                                          cs=_st((3, 1), (3, 3), sendFallbackSCSV=True), ss=_st((3, 1), (3, 4)),
+                                          resume='id', true_cmax=(3, 4))
+    S['scsv-fallback12-resume-ticket'] = dict(kind='cert', cred='rsa', cs0=_st((3, 1), (3, 3)),
+                                              cs=_st((3, 1), (3, 3), sendFallbackSCSV=True),
+                                              ss=_st((3, 1), (3, 4), ticketKeys=[b'\x22' * 32], ticket_count=1),
+                                              resume='ticket', true_cmax=(3, 4))
+    S['scsv-fallback11-resume-id'] = dict(kind='cert', cred='rsa', cs0=_st((3, 1), (3, 2)),
+                                          cs=_st((3, 1), (3, 2), sendFallbackSCSV=True), ss=_st((3, 1), (3, 3)),
+                                          resume='id', true_cmax=(3, 3))
     S['scsv-nofallback'] = dict(kind='cert', cred='rsa', cs=_st((3, 1), (3, 3), sendFallbackSCSV=True),
                                 ss=_st((3, 1), (3, 3)))
     return S
@@ -738,7 +751,8 @@ def run_case(sc, ops, seed=1, want_trace=False):
         session = None
         if sc.get('resume'):
             p0 = loop.Pair()
-            ckw, skw = _kwargs(sc, cache)
+            sc0 = dict(sc, cs=sc['cs0']) if 'cs0' in sc else sc
+            ckw, skw = _kwargs(sc0, cache)
             r0 = p0.handshake(ckw, skw, client_kind=sc['kind'])
             if r0[0][0] != 'ok' or r0[1][0] != 'ok':
                 return {'error': 'setup handshake failed: %r' % (r0,)}
